@@ -1,5 +1,5 @@
 """Units shared by C01-C04: everything the Lean theorems about `main` rest on."""
-from .series_props import specs_evals, specs_wiring, specs_product, specs_index
+from .series_props import specs_evals, specs_wiring, specs_product, specs_index, specs_solver, specs_masks
 
 LEAN_SETTING_NOTE = (
     "Lean setting (leanalg/lean/PV/Basic.lean, Setting.lean): block series form a star ring over Q with a separated, multiplicative, "
@@ -13,4 +13,5 @@ LEAN_SETTING_NOTE = (
 
 
 def specs_hermitian(tier):
-    return specs_evals(tier, algs=("main",)) + specs_wiring(tier, algs=("main",)) + specs_product(tier) + specs_index(tier)
+    return (specs_evals(tier, algs=("main",)) + specs_wiring(tier, algs=("main",)) + specs_product(tier) + specs_index(tier)
+            + specs_solver(tier) + specs_masks(tier))
